@@ -49,8 +49,14 @@ SetTruncFaults(seed) ==
 
 (* text seeds *)
 TextOps == {"addcell", "tag", "dupline", "delline", "nonutf8", "backslash"}
+(* escapes and characters of more than one byte: a backslash followed by each kind of follower (0..2: a character of 2 / 3 / 4 *)
+(* bytes in UTF-8, 3: a second backslash, 4..6: n t 0, 7: u), at the end of the line ("esc") and with text behind it       *)
+(* ("escz"); a cell replaced by ("unicell") or starting with ("unichar") characters of 2 / 3 / 4 bytes                      *)
+EscKinds == 0..7
 TextFaults(seed) ==
     UNION {{<<<<op, l - 1>>>> : op \in TextOps}
+           \cup {<<<<op, l - 1, k>>>> : op \in {"esc", "escz"}, k \in EscKinds}
+           \cup {<<<<op, l - 1, c - 1>>>> : op \in {"unicell", "unichar"}, c \in 1..seed.cells[l]}
            \cup {<<<<"dropcell", l - 1, c - 1>>>> : c \in 1..seed.cells[l]}
            \cup {<<<<"emptycell", l - 1, c - 1>>>> : c \in 1..seed.cells[l]}
            \cup {<<<<"indent", l - 1, d>>>> : d \in {1, 2, -1}} : l \in 1..Len(seed.cells)}
@@ -61,7 +67,8 @@ TextPairFaults(seed) ==
 (* descriptor seeds *)
 Alphabet == {"[", "L", ";", "(", ")", "V", "I", "/", ".", "$"}
 DescFaults(seed) ==
-    UNION {{<<<<"delchar", i>>>>, <<<<"dupchar", i>>>>} \cup {<<<<"setchar", i, c>>>> : c \in Alphabet} : i \in 0..(seed.n - 1)}
+    UNION {{<<<<"delchar", i>>>>, <<<<"dupchar", i>>>>} \cup {<<<<"setchar", i, c>>>> : c \in Alphabet}
+           \cup {<<<<"setuni", i, k>>>> : k \in 0..2} : i \in 0..(seed.n - 1)}      \* setuni: a character of 2 / 3 / 4 bytes
     \cup {<<<<"trunc", k>>>> : k \in 0..(seed.n - 1)}
 
 (* grown inputs: structures the format allows at sizes no mutation of a small seed reaches - nesting as deep as *)
@@ -92,7 +99,7 @@ ScriptOK(seed, ops) ==
         CASE o[1] = "grow" -> IsGrow(seed) /\ o[2] = seed.grow /\ o[3] >= 0
           [] o[1] = "set" -> o[2] >= 0 /\ o[2] < Len(seed.spans) /\ Settable(seed.spans[o[2] + 1])
           [] o[1] = "trunc" -> o[2] >= 0 /\ o[2] <= seed.n
-          [] o[1] \in {"delchar", "dupchar", "setchar"} -> o[2] >= 0 /\ o[2] < seed.n
+          [] o[1] \in {"delchar", "dupchar", "setchar", "setuni"} -> o[2] >= 0 /\ o[2] < seed.n
           [] OTHER -> o[2] >= 0 /\ o[2] < Len(seed.cells)
 
 (* The judgement: a parser returns a value or an error; what the class reader accepted, *)
